@@ -56,6 +56,12 @@ func poolCases(seed uint64, tier, prop string) []core.Case {
 		s := poolSpec{Seed: rng.Uint64(), Chains: combos[i%len(combos)], Steps: 150 + rng.IntN(150), N: 3 + rng.IntN(3),
 			BatchTimeoutMs: uint64(60_000 + rng.IntN(600_000)), CallTimeoutMs: uint64(3_600_001 + rng.IntN(3_600_000)),
 			ExtBlockMs: uint64(1000 + rng.IntN(14000)), FxBlockMs: uint64(1000 + rng.IntN(8000)), ExtCalls: i%4 == 3}
+		if i%5 == 2 || i%5 == 4 {
+			// fxcore's clock runs far ahead of the external chain: the projected external height, and with it
+			// the timeouts of new batches and calls, overshoots between observations, so timeouts are not
+			// monotone in the batch nonce
+			s.FxBlockMs = s.ExtBlockMs * uint64(20+rng.IntN(40))
+		}
 		out = append(out, core.MkCase(fmt.Sprintf("%s-pool-%03d", prop, i), s))
 	}
 	return out
@@ -120,6 +126,10 @@ type poolRun struct {
 	batchExecutedExt    map[string]map[uint64]bool
 	batchTimeout        map[string]map[uint64]uint64
 	releasedByExecution bool
+	forceToken          *fix.WToken
+	forceFee            int64
+	execToken           string
+	execNonce           uint64
 	perChainIn          map[string]sdkmath.Int
 	refunded            map[string]bool
 	stuck               map[string]bool
@@ -463,6 +473,17 @@ func (r *poolRun) syncModel(cn, op string, allow map[string]bool) {
 					if r.c06 {
 						r.checkBatchRelease(cn, op, x, observed)
 					}
+					// C05: the only operations that dissolve a batch are the execution of a later batch of the
+					// same token and the timeout clean-up
+					if r.c05 {
+						var n uint64
+						fmt.Sscanf(x.Loc, "batch:%d", &n)
+						superseded := r.releasedByExecution && x.Token == r.execToken && n < r.execNonce
+						to, known := r.batchTimeout[cn][n]
+						if !superseded && known && observed < to {
+							r.res.Violate("C05/batch-dissolved-without-cause", "%s: transfer %d of %s went back to the pool from batch %d (token %s, timeout %d, observed height %d) although no later batch of that token was executed", op, id, cn, n, x.Token, to, observed)
+						}
+					}
 				}
 			}
 		}
@@ -551,10 +572,16 @@ func (r *poolRun) checkBatchRelease(cn, op string, x *xfer, observed uint64) {
 	if e.lastBatchNonce[x.Token] >= n && r.batchExecutedExt[cn+"/"+x.Token][n] {
 		r.res.Violate("C06/double-spend/batch", "%s: batch %d of %s was executed on the external chain and its transfer %d returned to the pool", op, n, cn, x.ID)
 	}
-	if to, ok := r.batchTimeout[cn][n]; ok && !r.releasedByExecution {
+	// a batch goes back to the pool either because a later batch of the same token was executed
+	// (it can no longer be executed externally) or because its own timeout was observed to have passed
+	if r.releasedByExecution && x.Token == r.execToken && n < r.execNonce {
+		r.res.Count("superseded_releases_checked", 1)
+		return
+	}
+	if to, ok := r.batchTimeout[cn][n]; ok {
 		r.res.Count("timeout_releases_checked", 1)
 		if observed < to {
-			r.res.Violate("C06/batch-released-before-timeout", "%s: batch %d of %s (timeout %d) returned transfer %d to the pool while the last observed external height is %d", op, n, cn, to, x.ID, observed)
+			r.res.Violate("C06/batch-released-before-timeout", "%s: batch %d of %s (token %s, timeout %d) returned transfer %d to the pool while the last observed external height is %d and no later batch of that token was executed", op, n, cn, x.Token, to, x.ID, observed)
 		}
 	}
 }
